@@ -18,5 +18,6 @@ cp -a /verif/harness/target $hz/target 2>/dev/null
 ( cd $hz && CARGO_NET_OFFLINE=true cargo build --release --offline -j ${MUT_JOBS:-8} > $hz/build.log 2>&1 ) || { echo "build failed"; tail -20 $hz/build.log; exit 2; }
 out=/tmp/md-$n-trace.ndjson
 $hz/target/release/drive $suite --out $out --schedules /tmp/md-$n-sched.ndjson "$@" || { echo "drive failed"; exit 2; }
+[ -n "${KEEP_TRACE:-}" ] && cp $out "$KEEP_TRACE"
 python3 /verif/tools/tv.py $suite $out ${TV_SPLIT:-6}
 rm -f $out /tmp/md-$n-sched.ndjson
